@@ -12,6 +12,7 @@ import (
 	"os"
 	"path/filepath"
 	"runtime/debug"
+	"strings"
 
 	"verif/wscheck/internal/fold"
 	"verif/wscheck/internal/load"
@@ -127,7 +128,24 @@ func check(id, tier string) (code int) {
 		}
 		ctx := &rules.Ctx{P: prog, R: rep, Tier: tier,
 			Ix: fold.NewInitIndex(prog.ByPath[load.PkgWS], prog.ByPath[load.PkgWSUtil], prog.ByPath[load.PkgWSFlate])}
-		p.Run(ctx)
+		func() {
+			// a rule that cannot cope with the shape of the tree must not take the check down:
+			// the property is then undecided (exit 1 with a diagnostic), not "checker broken"
+			defer func() {
+				if r := recover(); r != nil {
+					stack := strings.Split(string(debug.Stack()), "\n")
+					where := ""
+					for _, l := range stack {
+						if strings.Contains(l, "/internal/rules/") || strings.Contains(l, "/internal/fold/") {
+							where = strings.TrimSpace(l)
+							break
+						}
+					}
+					rep.Unknown("internal", "internal/analysis-panic:"+cfg.Name, "-", fmt.Sprintf("the analysis could not be completed on this tree (%v at %s): the property is undecided", r, where))
+				}
+			}()
+			p.Run(ctx)
+		}()
 	}
 	rep.Config = ""
 	known, err := report.LoadKnown(filepath.Join(verifDir(), "known_findings.json"))
